@@ -126,6 +126,10 @@ def run(ck: Checker, prog: Program, tier: str):
 
     ck.guard(_r2, ck, prog)
     ck.guard(_r3, ck, prog)
+    # "after any sequence of ... re-orientation": the orientation that is stored (and saved) is the one given (rule of C04)
+    from . import c04
+    with ck.borrow(c04, "C18.R2+"):
+        ck.guard(c04._r1_r3, ck, prog)
     ck.extra["calls_resolved"] = eng.calls_resolved
 
 
